@@ -51,6 +51,11 @@ def run(tier, repo):
             if w not in gs and not any(g[0] == w[0] for g in got):
                 rp.fail("PATH", "%s/%s/missing" % (m, "/".join(w[0]) or "-"), site(f), "reference path [%s] -> %s, %s does not exist in the code" % (", ".join(w[0]), list(w[1]), w[2]))
     rp.floor("paths", total, 24)
+    # the one-shot payload parser the defragmenter relies on: a fragment must be signalled by Incomplete / ErrorKind::Complete,
+    # which is the case exactly when its grammar is the reference one (streaming reads under complete() before any length-dependent rejection)
+    from ..gcommon import grammar_rules
+    rp.rule("ONE-SHOT-GRAMMAR", "parse_tls_record_with_header (the parser applied to the accumulated buffer) has the reference grammar, so a truncated first message yields Incomplete or ErrorKind::Complete and nothing else")
+    grammar_rules(rp, F, "C07", rule="ONE-SHOT-GRAMMAR")
     v = F.const_val("tls_records_parser::MAX_RECORD_DATA")
     rp.check(v == S.MAX, "CONSTANTS", "MAX_RECORD_DATA", "src/tls_records_parser.rs", "MAX_RECORD_DATA is %s, not 10 MiB" % v, expected=S.MAX, found=v)
     a = F.adts.get("tls_records_parser::TlsRecordsParser")
